@@ -85,13 +85,17 @@ func Yield(site string) {
 	}
 }
 
-// Tick counts one loop iteration.
+// Tick counts one loop iteration; under the scheduler a loop iteration is a scheduling point too (code between two
+// function entries is not atomic when it loops).
 func Tick() {
 	if TickOn {
 		Ticks++
 		if TickBudget > 0 && Ticks > TickBudget {
 			panic(BudgetExceeded{Ticks})
 		}
+	}
+	if Sched != nil {
+		Sched("loop")
 	}
 }
 
@@ -117,3 +121,315 @@ var (
 	MapSites     []string // map-range sites rewritten
 	SkippedSites []string // map-range sites left alone (with reason)
 )
+
+// ---------------------------------------------------------------------------
+// Models of the sync types, substituted by the instrumenter (sync.Mutex -> verifrt.Mutex, ...). Under the cooperative
+// scheduler exactly one goroutine runs at a time, so the models need no real synchronisation; what they add is
+// visibility: every operation is a scheduling point, and waiting for a lock blocks the task in the scheduler instead
+// of the operating system (a task parked while it holds a real lock would deadlock the explorer).
+
+// SyncUnmodelled lists uses of sync identifiers that have no model (the schedule search then stays non-preemptive).
+var SyncUnmodelled []string
+
+// SyncModelled lists the rewritten uses.
+var SyncModelled []string
+
+// Block parks the running task until Wake is called with the same key; Aborting is set when the scheduler gives up.
+var (
+	Block    func(key any)
+	Wake     func(key any)
+	Aborting bool
+)
+
+// Aborted is the panic value with which a blocked task is released when an execution is abandoned.
+type Aborted struct{}
+
+func wait(key any) {
+	if Aborting {
+		panic(Aborted{})
+	}
+	if Block == nil {
+		panic("verifrt: a goroutine waits for a lock that nothing can release (not under the scheduler)")
+	}
+	Block(key)
+	if Aborting {
+		panic(Aborted{})
+	}
+}
+
+func wake(key any) {
+	if Wake != nil {
+		Wake(key)
+	}
+}
+
+// Mutex models sync.Mutex.
+type Mutex struct{ locked bool }
+
+func (m *Mutex) Lock() {
+	Yield("sync.Mutex.Lock")
+	for m.locked {
+		wait(m)
+	}
+	m.locked = true
+}
+
+func (m *Mutex) TryLock() bool {
+	Yield("sync.Mutex.TryLock")
+	if m.locked {
+		return false
+	}
+	m.locked = true
+	return true
+}
+
+func (m *Mutex) Unlock() {
+	if !m.locked {
+		panic("sync: unlock of unlocked mutex")
+	}
+	m.locked = false
+	wake(m)
+	Yield("sync.Mutex.Unlock")
+}
+
+// RWMutex models sync.RWMutex (no writer preference: the explorer tries every order anyway).
+type RWMutex struct {
+	writer  bool
+	readers int
+}
+
+func (m *RWMutex) Lock() {
+	Yield("sync.RWMutex.Lock")
+	for m.writer || m.readers > 0 {
+		wait(m)
+	}
+	m.writer = true
+}
+
+func (m *RWMutex) Unlock() {
+	if !m.writer {
+		panic("sync: Unlock of unlocked RWMutex")
+	}
+	m.writer = false
+	wake(m)
+	Yield("sync.RWMutex.Unlock")
+}
+
+func (m *RWMutex) RLock() {
+	Yield("sync.RWMutex.RLock")
+	for m.writer {
+		wait(m)
+	}
+	m.readers++
+}
+
+func (m *RWMutex) RUnlock() {
+	if m.readers <= 0 {
+		panic("sync: RUnlock of unlocked RWMutex")
+	}
+	m.readers--
+	wake(m)
+	Yield("sync.RWMutex.RUnlock")
+}
+
+func (m *RWMutex) TryLock() bool {
+	Yield("sync.RWMutex.TryLock")
+	if m.writer || m.readers > 0 {
+		return false
+	}
+	m.writer = true
+	return true
+}
+
+func (m *RWMutex) TryRLock() bool {
+	Yield("sync.RWMutex.TryRLock")
+	if m.writer {
+		return false
+	}
+	m.readers++
+	return true
+}
+
+// Once models sync.Once.
+type Once struct {
+	done bool
+	m    Mutex
+}
+
+func (o *Once) Do(f func()) {
+	Yield("sync.Once.Do")
+	if o.done {
+		return
+	}
+	o.m.Lock()
+	defer o.m.Unlock()
+	if !o.done {
+		defer func() { o.done = true }()
+		f()
+	}
+}
+
+// Pool models sync.Pool as a stack that never forgets (the garbage collector is not part of the schedule).
+type Pool struct {
+	New   func() any
+	items []any
+}
+
+func (p *Pool) Get() any {
+	Yield("sync.Pool.Get")
+	if n := len(p.items); n > 0 {
+		x := p.items[n-1]
+		p.items = p.items[:n-1]
+		return x
+	}
+	if p.New != nil {
+		return p.New()
+	}
+	return nil
+}
+
+func (p *Pool) Put(x any) {
+	Yield("sync.Pool.Put")
+	if x == nil {
+		return
+	}
+	p.items = append(p.items, x)
+}
+
+// Map models sync.Map.
+type Map struct{ m map[any]any }
+
+func (m *Map) Load(key any) (any, bool) {
+	Yield("sync.Map.Load")
+	v, ok := m.m[key]
+	return v, ok
+}
+
+func (m *Map) Store(key, value any) {
+	Yield("sync.Map.Store")
+	if m.m == nil {
+		m.m = map[any]any{}
+	}
+	m.m[key] = value
+}
+
+func (m *Map) LoadOrStore(key, value any) (any, bool) {
+	Yield("sync.Map.LoadOrStore")
+	if v, ok := m.m[key]; ok {
+		return v, true
+	}
+	if m.m == nil {
+		m.m = map[any]any{}
+	}
+	m.m[key] = value
+	return value, false
+}
+
+func (m *Map) LoadAndDelete(key any) (any, bool) {
+	Yield("sync.Map.LoadAndDelete")
+	v, ok := m.m[key]
+	delete(m.m, key)
+	return v, ok
+}
+
+func (m *Map) Delete(key any) {
+	Yield("sync.Map.Delete")
+	delete(m.m, key)
+}
+
+func (m *Map) Swap(key, value any) (any, bool) {
+	Yield("sync.Map.Swap")
+	v, ok := m.m[key]
+	if m.m == nil {
+		m.m = map[any]any{}
+	}
+	m.m[key] = value
+	return v, ok
+}
+
+func (m *Map) CompareAndSwap(key, old, new any) bool {
+	Yield("sync.Map.CompareAndSwap")
+	if v, ok := m.m[key]; ok && v == old {
+		m.m[key] = new
+		return true
+	}
+	return false
+}
+
+func (m *Map) CompareAndDelete(key, old any) bool {
+	Yield("sync.Map.CompareAndDelete")
+	if v, ok := m.m[key]; ok && v == old {
+		delete(m.m, key)
+		return true
+	}
+	return false
+}
+
+func (m *Map) Range(f func(key, value any) bool) {
+	Yield("sync.Map.Range")
+	keys := make([]any, 0, len(m.m))
+	for k := range m.m {
+		keys = append(keys, k)
+	}
+	sort.Slice(keys, func(i, j int) bool { return less(keys[i], keys[j]) })
+	for _, k := range keys {
+		v, ok := m.m[k]
+		if !ok {
+			continue
+		}
+		if !f(k, v) {
+			return
+		}
+	}
+}
+
+func (m *Map) Clear() {
+	Yield("sync.Map.Clear")
+	m.m = nil
+}
+
+func less(a, b any) bool {
+	switch x := a.(type) {
+	case string:
+		if y, ok := b.(string); ok {
+			return x < y
+		}
+	case int:
+		if y, ok := b.(int); ok {
+			return x < y
+		}
+	}
+	return fmtKey(a) < fmtKey(b)
+}
+
+func fmtKey(v any) string {
+	switch x := v.(type) {
+	case string:
+		return "s" + x
+	case int:
+		return "i" + itoa(x)
+	}
+	return "?"
+}
+
+func itoa(n int) string {
+	if n == 0 {
+		return "0"
+	}
+	neg := n < 0
+	if neg {
+		n = -n
+	}
+	var b [24]byte
+	i := len(b)
+	for n > 0 {
+		i--
+		b[i] = byte('0' + n%10)
+		n /= 10
+	}
+	if neg {
+		i--
+		b[i] = '-'
+	}
+	return string(b[i:])
+}
